@@ -13,12 +13,23 @@ def catalog():
 
     # small unimodal runs (fast; used by quick tiers)
     add('gauss', like='gauss', n_live=30, n_batch=15, n_eff=100, f_live=0.1)
+    add('empty', like='gauss', n_live=20, n_update=4, n_batch=4, n_eff=60, f_live=0.1,
+        n_points_min=4, want='removed')
+    add('empty_d', like='gauss', n_live=20, n_update=4, n_batch=4, n_eff=15, f_live=0.1,
+        n_points_min=4, want='removed', discard=True)
+    add('gauss_t', like='gauss', n_live=30, n_batch=15, n_eff=30, f_live=0.1)
+    add('nlb', like='gauss', n_live=40, n_batch=10, n_like_new_bound=30, n_eff=80, f_live=0.1)
+    add('nlb_ring', like='ring', n_live=40, n_batch=20, n_like_new_bound=60, n_eff=100,
+        f_live=0.1, n_points_min=5)
     add('gauss_s', like='gauss', n_live=30, n_batch=15, n_eff=320, f_live=0.1)
     add('gauss_d', like='gauss', n_live=30, n_batch=30, n_eff=40, f_live=0.1, discard=True)
     add('gauss_net', like='gauss', n_live=40, n_batch=20, n_networks=1, n_eff=60, f_live=0.15)
     add('two', like='two', n_live=60, n_batch=20, n_eff=150, f_live=0.1, n_points_min=5)
     add('ring_net', like='ring', n_live=50, n_batch=25, n_networks=1, n_eff=150, f_live=0.1,
         n_points_min=5)
+    add('funnel_net', like='funnel', n_live=60, n_batch=10, n_networks=1, n_eff=100, f_live=0.1,
+        n_points_min=5)
+    add('funnel', like='funnel', n_live=60, n_batch=10, n_eff=100, f_live=0.1, n_points_min=5)
     add('half', like='half', n_live=40, n_batch=20, n_eff=120, f_live=0.1)
     add('plateau', like='plateau', n_live=40, n_batch=20, n_eff=120, f_live=0.1)
     add('wrap', like='wrap', n_live=40, n_batch=20, n_eff=120, f_live=0.1, periodic=[0])
@@ -65,4 +76,4 @@ def catalog():
 
 def get(names):
     c = catalog()
-    return [c[n] for n in names]
+    return [c[n].resolve() for n in names]
